@@ -1616,6 +1616,7 @@ func (x *accExtractor) emit(root string) error {
 		Entry       map[string][]string `json:"entry_locksets"`
 		Fields      int                 `json:"fields"`
 		Locks       []string            `json:"locks"`
+		Exported    []string            `json:"exported_methods"`
 	}{Rows: rows, Excluded: excluded, Unresolved: x.unresolved, Confinement: confinement, Used: used, Entry: map[string][]string{}, Fields: len(fields), Locks: locks}
 	for _, p := range racy {
 		out.Racy = append(out.Racy, jpair{p.A.Field, p.A, p.B})
@@ -1633,6 +1634,19 @@ func (x *accExtractor) emit(root string) error {
 			out.Entry[fn.name] = l
 		}
 	}
+	for _, fn := range x.funcs {
+		if fn.decl.Recv == nil || !ast.IsExported(fn.decl.Name.Name) {
+			continue
+		}
+		if obj := fn.pkg.pkg.Scope().Lookup(recvTypeName(fn.decl)); obj != nil {
+			if tn, ok := obj.(*types.TypeName); ok {
+				if _, tracked := x.tracked[tn]; tracked && ast.IsExported(tn.Name()) {
+					out.Exported = append(out.Exported, fn.name)
+				}
+			}
+		}
+	}
+	sort.Strings(out.Exported)
 	jb, _ := json.MarshalIndent(out, "", " ")
 	os.MkdirAll(filepath.Join(root, ".build", "c10"), 0o755)
 	if err := os.WriteFile(filepath.Join(root, ".build", "c10", "accesses.json"), jb, 0o644); err != nil {
